@@ -17,6 +17,67 @@ def hash_name(n):
     return zlib.crc32(n.encode())
 
 
+# Programs whose expected events are written here by hand (as terms over the inputs), not derived from the typed AST: the reference
+# interpreter takes folded constants from the real front end, so a wrong fold of e.g. (300 is byte) is int is invisible to it.
+def _b(T, v):
+    return T.low_byte_word(v)
+
+
+SPECS = {
+    'const-narrow-widen': ("empty @is_you(int x) { sleep((300 is byte) is int); sleep((-1 is byte) is int); sleep(((256 + x) is byte) is int); write(300 is byte); sleep((511 is byte) + 1); }\n",
+                           lambda T, i: [('sleep', 44), ('sleep', 255), ('sleep', _b(T, i['x'][0])), ('out', 44), ('sleep', 256)]),
+    'const-byte-variable': ("const byte CM = -1;\nconst byte CK = 300;\nempty @is_you(int x) { sleep(CM + 0); sleep(CK); sleep((CM is int) * 2); write(CM); if (CM > 200) { write('G'); } else { write('L'); } sleep(CM + x); }\n",
+                            lambda T, i: [('sleep', 255), ('sleep', 44), ('sleep', 510), ('out', 255), ('out', 71), ('sleep', T.arith('add', 255, i['x'][0]))]),
+    'const-narrow-compare': ("empty @is_you(int x) { if ((300 is byte) == 44) { write('y'); } else { write('n'); } if ((-1 is byte) > 0) { write('p'); } else { write('m'); } "
+                             "bool t = (256 is byte) is bool; sleep(t is int); sleep(((257 is byte) is bool) is int); sleep(x); }\n",
+                             lambda T, i: [('out', 121), ('out', 112), ('sleep', 0), ('sleep', 1), ('sleep', i['x'][0])]),
+    'const-narrow-stores': ("byte gq = 0;\nbyte low(byte v) { return v; }\nempty @is_you(int x) { byte m = -1; sleep(m); byte[] a = [257, -2, x is byte]; sleep(a[0]); sleep(a[1]); sleep(a[2]); gq = 258; sleep(gq); sleep(low(259)); "
+                            "const byte[] c = [511, 256]; sleep(c[0]); sleep(c[1]); }\n",
+                            lambda T, i: [('sleep', 255), ('sleep', 1), ('sleep', 254), ('sleep', _b(T, i['x'][0])), ('sleep', 2), ('sleep', 3), ('sleep', 255), ('sleep', 0)]),
+    'const-arith-fold': ("const int K = 11;\nconst byte KB = 'k';\nempty @is_you(int x) { sleep(((K + 300) is byte) is int); sleep((KB is int) + (('a' is int) is byte)); sleep(K * 3 - 1); sleep(7 / 2); sleep(-7 / 2); sleep(-7 % 3); sleep(7 % -3); "
+                         "sleep((K > 10) is int); sleep((not K) is int); sleep(x - K); }\n",
+                         lambda T, i: [('sleep', 55), ('sleep', 204), ('sleep', 32), ('sleep', 3), ('sleep', (-4) & T.M), ('sleep', 2), ('sleep', (-2) & T.M), ('sleep', 1), ('sleep', 0), ('sleep', T.arith('sub', i['x'][0], 11))]),
+    'const-bool-int': ("const bool KT = true;\nempty @is_you(int x) { sleep(KT is int); sleep((KT is byte) + 1); sleep((true is int) + (false is int)); sleep(((2 is bool) is int) + ((0 is bool) is int)); sleep((\"\" is bool) is int); sleep((\"a\" is bool) is int); sleep(x); }\n",
+                       lambda T, i: [('sleep', 1), ('sleep', 2), ('sleep', 1), ('sleep', 1), ('sleep', 0), ('sleep', 1), ('sleep', i['x'][0])]),
+}
+
+
+def spec_task(task):
+    from hv.harness import Case, build, Stats, Decider, argv_for_compiled, jsonable_argv, run_concrete_case, conc_events
+    from hv.equiv import compare
+    from hv.terms import fmt_events
+    name, W = task['spec'], task['word']
+    src, fn = SPECS[name]
+    res = dict(name='spec/%s-w%d' % (name, W), violations=[], inconclusive=[], harness_errors=[], status='ok')
+    case = Case(src, word=W, stack=96, name=res['name'])
+    st = Stats()
+    b = build(case, max_steps=8000)
+    paths = b.vm.run()
+    st.add_vm(b.vm, paths)
+    cases = [([], tuple(fn(b.vm.T, b.vm.inputs)) + (('flag', 'win'),), 'done')]
+    dec = Decider(W)
+    mism, inconc = compare(dec, b, paths, cases, st)
+    st.queries += dec.nq
+    st.solver_s += dec.tq
+    res['inconclusive'] += inconc
+    res['npaths'] = len(paths)
+    res['path_kinds'] = sorted({p.kind for p in paths})
+    res['witness'] = fmt_events(paths[0].events, 8) if paths else ''
+    for m in mism:
+        argv = argv_for_compiled(b.compiled, m['argv'], W)
+        p = run_concrete_case(case, argv)
+        exp = conc_events(tuple(fn(b.vm.T, {k: list(v) for k, v in m['argv'].items()})) + (('flag', 'win'),))
+        got = conc_events(p.events)
+        if p.kind == 'done' and got == exp:
+            res['harness_errors'].append('%s: counterexample did not replay (argv %s)' % (res['name'], argv))
+        else:
+            res['violations'].append(dict(what='compiled program differs from the hand-written specification of its constants', case=res['name'],
+                                          replay=dict(type='vm-events', src=src, word=W, stack=96, unchecked=False, argv=jsonable_argv(argv), expected=[exp], expected_kind='done',
+                                                      observed=dict(kind=p.kind, events=got, info=str(p.info)))))
+    res['stats'] = st.as_dict()
+    return res
+
+
 def main():
     rep = Report(PID, 'translation_validation', 'symbolic execution of the emitted assembly (z3) vs source-level reference interpreter; equivalence obligations per path pair')
     quick = rep.tier == 'quick'
@@ -34,6 +95,7 @@ def main():
             tasks.append(case_to_task(c.with_(word=W, stack=96), max_steps=20000, stack_garbage=not quick, vm_wall=120,
                                       allow_reject='random' in c.name))
     run_tasks(rep, tasks)
+    run_tasks(rep, [dict(name='spec/%s-w%d' % (n, W), spec=n, word=W) for n in SPECS for W in widths], worker=spec_task, sample_every=3)
     rep.rule = ('templates = enumerated T-seq family + entry-point signature matrix + every operator in every position + use-site matrix (expression kind x consuming site) + seeded random sequential programs; distinct = distinct '
                 'template name x word size with at least one committed VM path; all entry arguments symbolic (whole word / byte / string bytes)')
     rep.functions_encoded = ['emitted code of CodeGen.gen_func/gen_block/gen_stmts/push_expr/eval_expr/eval_func_call/lookup_var/make_global/array_lookup/array_assignment + stdlib routines used']
